@@ -106,3 +106,16 @@ func CoqStore(st *memstore.Store, str func(string) string) string {
 	}
 	return "[" + strings.Join(items, "; ") + "]"
 }
+
+// PutSplitLists writes a split with the given file lists (one index file each) under a generation.
+func (w *World) PutSplitLists(repo, did, sid, gen string, start time.Time, done bool, lists [][]model.BundleEntry) {
+	s := model.SplitDescriptor{SplitID: sid, StartTime: start, State: model.SplitRunning, GenerationID: gen}
+	w.VMeta.Set(model.GetArchivePathToInitialSplit(repo, did, sid), must(yaml.Marshal(s)))
+	for i, l := range lists {
+		w.VMeta.Set(model.GetArchivePathToSplitFileList(repo, did, sid, gen, uint64(i)), must(yaml.Marshal(model.BundleEntries{BundleEntries: l})))
+	}
+	if done {
+		s.State, s.EndTime, s.SplitEntriesFileCount = model.SplitDone, start.Add(time.Second), uint64(len(lists))
+		w.VMeta.Set(model.GetArchivePathToFinalSplit(repo, did, sid), must(yaml.Marshal(s)))
+	}
+}
